@@ -130,6 +130,12 @@ func allSpecs() map[string]*PropSpec {
 		NotDecided:  "equality of the two parses outside the damaged entry as values.",
 		Rules:       []func(*Ctx){ruleLexer, ruleParser},
 	})
+	add(&PropSpec{
+		ID:          "C06",
+		Explanation: "L-PROGRESS (byte-class abstract interpretation of the lexer, all calling contexts): every non-EOF token return happens after the position strictly increased since Next was entered, and EOF is returned only at the end of input - hence tokens never overlap, stay inside the input and tokenisation terminates with EOF for every byte string. P-PROGRESS (token-kind abstract interpretation of the parser): every path back to the head of a token loop consumes a token. LOOP-CENSUS: every other for-loop modifies a variable of its condition on every path (worklist/fixpoint loops admitted by name with their argument). REC-CENSUS: the only recursion is the guarded include recursion and the structural settings recursion. D-EXPONENT: a parsed quantity passes an Exponent() bound before it enters the tree. C06-REPEAT: Repeat counts are non-negative and configuration integers that reach them are clamped. C06-PANIC: no explicit panic, unchecked assertion or non-constant integer division on a request path. C06-BOUNDS: byte offsets converted from client columns are clamped before slicing. units (no byte/rune/UTF-16 mix feeding an index).",
+		NotDecided:  "slice/index bounds in general (no sound bound analysis in reach), time proportional to size beyond loop progress (e.g. repeated lookahead), unsigned wrap-around in the token encoder.",
+		Rules:       []func(*Ctx){ruleLexer, ruleParser, ruleLoopCensus, ruleRecCensus, ruleDecimalExponent, ruleRepeat, rulePanic, ruleBounds, ruleUnits("module", nil)},
+	})
 	return m
 }
 
